@@ -25,8 +25,10 @@ type (
 )
 
 func (ds *dataStore) save(fileName string) (err error) {
-	// open output file
-	f, err := os.Create(fileName)
+	// write to a temporary file and put it in place when it is complete, so that an
+	// interrupted save leaves the previous snapshot intact
+	tmpName := fileName + ".tmp"
+	f, err := os.Create(tmpName)
 	if err != nil {
 		return
 	}
@@ -38,6 +40,11 @@ func (ds *dataStore) save(fileName string) (err error) {
 		verifPoint("save-closing", 0, 0)
 		if err := f.Close(); err != nil {
 			panic(err)
+		}
+		if err == nil {
+			err = os.Rename(tmpName, fileName)
+		} else {
+			os.Remove(tmpName)
 		}
 	}()
 
